@@ -206,6 +206,7 @@ func makeSubjectFieldBuilt(c opsCase) (subject, bool) {
 			}
 			s.setField(m.Name, constOf(3, m.Name, i))
 		}
+		s.o3 = s.o3.refreshed()
 		return s, true
 	}
 	if ref, ok = spec.AcceptV2(c.Input, lv); !ok {
